@@ -333,7 +333,7 @@ class Interp:
             if m in ("when", "otherwise", "else_", "alias", "substr"):
                 return ("method", recv, m, args)
             raise Untranslatable(f"method .{m} not understood")
-        f = E(n.func) if isinstance(n.func, ast.Name) else None
+        f = E(n.func) if isinstance(n.func, (ast.Name, ast.Call)) else None
         if f is None:
             raise Untranslatable(f"call not understood: {ast.unparse(n)[:80]}")
         args = [E(a) for a in n.args]
